@@ -67,7 +67,9 @@ def nodeOfJson (names : Array String) (j : Json) : Except String Node := do
     | .ok a => a.toList.mapM (keyOfStr names)
     | .error _ => .ok []
   -- a split field must be a literal list
-  let nd : Node := { name := name, x := ← src "x", y := ← src "y", z := ← src "z", split := split, comb := comb }
+  let nested := (j.getObjValAs? Bool "wf").toOption.getD false
+  let nd : Node := { name := name, x := ← src "x", y := ← src "y", z := ← src "z", split := split, comb := comb,
+                     nested := nested }
   for f in split.fields do
     match nd.src f with
     | .lst _ => pure ()
@@ -91,6 +93,9 @@ def wfOfJson (j : Json) : Except String (Wf × Array String) := do
 def jobsJson (names : Array String) (jobs : List (Nat × Nat)) : Json :=
   Json.mkObj (jobs.map fun (n, c) => (names.getD n "?", Json.num (JsonNumber.fromNat c)))
 
+def jobOutsJson (names : Array String) (jo : List (Nat × List Val)) : Json :=
+  Json.mkObj (jo.map fun (n, vs) => (names.getD n "?", Json.arr (vs.map (valToJson names)).toArray))
+
 def crashName : Model.Crash → String
   | .typeError => "TypeError" | .valueError => "ValueError" | .attributeError => "AttributeError"
   | .keyError => "KeyError" | .indexError => "IndexError" | .pydraStateError => "PydraStateError"
@@ -101,10 +106,12 @@ def handle (j : Json) : Json :=
   | .error e => err e
   | .ok (w, names) =>
     let spec := match Spec.run w with
-      | .ok r => Json.mkObj [("out", .arr (r.outs.map (valToJson names)).toArray), ("jobs", jobsJson names r.jobs)]
+      | .ok r => Json.mkObj [("out", .arr (r.outs.map (valToJson names)).toArray), ("jobs", jobsJson names r.jobs),
+                             ("jobouts", jobOutsJson names r.jobOuts)]
       | .error e => Json.mkObj [("error", .str e)]
     let model := match Model.run w with
-      | .ok r => Json.mkObj [("out", .arr (r.outs.map (valToJson names)).toArray), ("jobs", jobsJson names r.jobs)]
+      | .ok r => Json.mkObj [("out", .arr (r.outs.map (valToJson names)).toArray), ("jobs", jobsJson names r.jobs),
+                             ("jobouts", jobOutsJson names r.jobOuts)]
       | .error (.crash c) => Json.mkObj [("error", .str (crashName c))]
       | .error (.unmodelled why) => Json.mkObj [("unmodelled", .str why)]
       | .error (.malformed why) => Json.mkObj [("malformed", .str why)]
